@@ -33,7 +33,12 @@ Proof.
   - destruct (la_alive s) eqn:Ea; [|cbn; exact Hinv]. intros _. cbn. apply Hinv. exact Ea.
   - destruct (la_alive s) eqn:Ea; cbn; exact Hinv.
   - destruct (la_alive s) eqn:Ea; [|cbn; exact Hinv]. cbn. discriminate.
+  - cbn. exact Hinv.
 Qed.
+
+(* renaming the application while an instance lives changes nothing about it: the path was fixed at construction *)
+Theorem rename_changes_nothing s app : fst (la_step s (LRename app)) = s.
+Proof. reflexivity. Qed.
 
 Fixpoint la_steps (s : lauth) (ops : list laop) : lauth :=
   match ops with [] => s | o :: r => la_steps (fst (la_step s o)) r end.
